@@ -11,58 +11,67 @@ from hypothesis import strategies as st
 
 from vf import gen_mat
 from vf import oracle_tsp as o
+from vf import fuzz
 from vf.core import Ctx, HarnessError, require, sut
 
-META = {
-    "rule": "roundtrip: matrices as in C05 (symmetric / asymmetric / almost "
-            "symmetric, values up to 10^12, n <= 12, thorough 24) with drawn "
-            "sanitised names and 0-3 comments -> to_stream -> _from_stream or "
-            "from_file; the written text is also decoded by an independent "
-            "reader. explicit: the same matrices written by the check's own "
-            "writers as FULL_MATRIX / UPPER_ROW / LOWER_DIAG_ROW / "
-            "UPPER_DIAG_ROW (asymmetric: FULL_MATRIX) with arbitrary "
-            "diagonal values, header keys in drawn order and spacing, data "
-            "wrapped by the line-wrapping generator (blanks only); "
-            "non-trivial = some text has a matrix row split over lines and a "
-            "line holding parts of two rows. coords: 2..10 points, integer "
-            "coordinates (up to 10^6, also negative, also in exponent "
-            "notation), decimals with 1-3 fractional digits, dyadic "
-            "decimals (multiples of 1/2, 1/4, 1/8) for EUC_2D / CEIL_2D / "
-            "ATT, collinear half-integer points (exact rounding ties), "
-            "DDD.MM coordinates for GEO; non-trivial = at least one "
-            "distance is not an integer before rounding (GEO: up to 16 "
-            "points). tours: all shipped "
-            "tours (enumerated). shipped_coords: every pair of cities of "
-            "every shipped coordinate instance with <= 80 (thorough 320) "
-            "cities, coordinates read by the check's own parser. tour_text: drawn permutations written as "
-            "wrapped TOUR_SECTION text, also with a duplicated or missing "
-            "node; distinct = distinct cases",
-    "assumptions": [
-        "numbers in TSPLIB text are separated by blanks (the reader "
-        "tokenises on blanks only), one city per line in coordinate sections",
-        "integer and dyadic coordinates: exact integer oracle (integer "
-        "square roots), results must be equal; other decimal coordinates: "
-        "exact rational value, both neighbours accepted when it lies within "
-        "1e-9 of a rounding boundary (counted as borderline)",
-        "GEO: TSPLIB95 formula with the FAQ's truncating degree conversion, "
-        "PI = 3.141592, RRR = 6378.388, evaluated in double precision from "
-        "exactly formed angle differences; both neighbours accepted within "
-        "1e-6 km of an integer",
-        "documented optima: table of the 31 published values in "
-        "vf/oracle_tsp.py, compared with the instance's lower bound and the "
-        "length of the shipped tour"],
-    "shards": [4, 16],
-    "technique": "property-based testing: Hypothesis-generated matrices, "
-                 "point sets and line wrappings, independent TSPLIB writers "
-                 "/ reader and exact-integer TSPLIB95 distance functions; "
-                 "complete enumeration of the shipped tours",
-    "level_text": "randomised exploration of texts up to 12 (24) cities; "
-                  "the 31 shipped instance/tour pairs are checked "
-                  "exhaustively",
-    "level_note": "trusted: Python fractions / math.isqrt, libm cos / acos "
-                  "for GEO; defects below the stated guard bands are "
-                  "invisible",
-}
+META = {'rule': 'roundtrip: matrices as in C05 (symmetric / asymmetric / almost '
+         'symmetric, values up to 10^12, n <= 12, thorough 24) with drawn '
+         'sanitised names and 0-3 comments -> to_stream -> _from_stream or '
+         'from_file; the written text is also decoded by an independent '
+         "reader. explicit: the same matrices written by the check's own "
+         'writers as FULL_MATRIX / UPPER_ROW / LOWER_DIAG_ROW / '
+         'UPPER_DIAG_ROW (asymmetric: FULL_MATRIX) with arbitrary diagonal '
+         'values, header keys in drawn order and spacing, data wrapped by '
+         'the line-wrapping generator (blanks only); non-trivial = some text '
+         'has a matrix row split over lines and a line holding parts of two '
+         'rows. coords: 2..10 points, integer coordinates (up to 10^6, also '
+         'negative, also in exponent notation), decimals with 1-3 fractional '
+         'digits, dyadic decimals (multiples of 1/2, 1/4, 1/8) for EUC_2D / '
+         'CEIL_2D / ATT, collinear half-integer points (exact rounding '
+         'ties), DDD.MM coordinates for GEO; non-trivial = at least one '
+         'distance is not an integer before rounding (GEO: up to 16 points). '
+         'tours: all shipped tours (enumerated). shipped_coords: every pair '
+         'of cities of every shipped coordinate instance with <= 80 '
+         "(thorough 320) cities, coordinates read by the check's own parser. "
+         'tour_text: drawn permutations written as wrapped TOUR_SECTION '
+         'text, also with a duplicated or missing node; distinct = distinct '
+         "cases Additionally 'fuzz_tsplib': coverage-guided fuzzing "
+         '(atheris/libFuzzer, TSPLIB keyword dictionary, token-level custom '
+         'mutator) of the TSPLIB reader: every text that loads must survive '
+         'to_stream -> _from_stream with the same name, size, symmetry flag '
+         'and matrix, and its symmetry flag must match its matrix; '
+         'non-trivial fuzz inputs = distinct accepted texts.',
+ 'assumptions': ['numbers in TSPLIB text are separated by blanks (the reader '
+                 'tokenises on blanks only), one city per line in coordinate '
+                 'sections',
+                 'integer and dyadic coordinates: exact integer oracle '
+                 '(integer square roots), results must be equal; other '
+                 'decimal coordinates: exact rational value, both neighbours '
+                 'accepted when it lies within 1e-9 of a rounding boundary '
+                 '(counted as borderline)',
+                 "GEO: TSPLIB95 formula with the FAQ's truncating degree "
+                 'conversion, PI = 3.141592, RRR = 6378.388, evaluated in '
+                 'double precision from exactly formed angle differences; '
+                 'both neighbours accepted within 1e-6 km of an integer',
+                 'documented optima: table of the 31 published values in '
+                 "vf/oracle_tsp.py, compared with the instance's lower bound "
+                 'and the length of the shipped tour',
+                 'fuzz targets: inputs the independent oracle cannot '
+                 'interpret and exceptions other than the documented '
+                 "rejection are counted, not reported; libFuzzer's -seed "
+                 'pins a campaign only approximately, the saved input is the '
+                 'reproducible unit'],
+ 'shards': [4, 16],
+ 'technique': 'property-based testing: Hypothesis-generated matrices, point '
+              'sets and line wrappings, independent TSPLIB writers / reader '
+              'and exact-integer TSPLIB95 distance functions; complete '
+              'enumeration of the shipped tours + coverage-guided fuzzing '
+              '(atheris) of the TSPLIB reader with the write/read round trip '
+              'as oracle',
+ 'level_text': 'randomised exploration of texts up to 12 (24) cities; the 31 '
+               'shipped instance/tour pairs are checked exhaustively',
+ 'level_note': 'trusted: Python fractions / math.isqrt, libm cos / acos for '
+               'GEO; defects below the stated guard bands are invisible'}
 
 DEC_TOL = Fraction(1, 10 ** 9)
 GEO_TOL = 1e-6
@@ -703,6 +712,7 @@ def check_tour_text(ctx: Ctx, case: dict) -> None:
 SUBS = {"roundtrip": check_roundtrip, "explicit": check_explicit,
         "coords": check_coords, "tours": check_shipped_tour,
         "tour_text": check_tour_text, "shipped_coords": check_shipped_coords}
+SUBS["fuzz_tsplib"] = fuzz.make_sub("tsplib")
 
 
 def run(ctx: Ctx) -> None:
@@ -735,3 +745,5 @@ def run(ctx: Ctx) -> None:
               quick=600, thorough=16 * 3500)
     ctx.given("tour_text", tour_text_cases(ctx.pick(12, 40)),
               check_tour_text, quick=150, thorough=16 * 500)
+    fuzz.run_target(ctx, "tsplib", quick_runs=120_000,
+                    thorough_runs=16 * 1_000_000)
